@@ -8,6 +8,7 @@ import itertools
 from hypothesis import strategies as st
 
 from pbt.core import HarnessError, Outcome
+from pbt.props import _decoys
 from pbt.instruments import clock as _clock, locks as _locks
 from pbt.instruments.clock import VirtualClock
 from pbt.instruments.locks import LockShim, SelfDeadlock
@@ -33,6 +34,7 @@ ASSUMPTIONS = [
 MIN_NONTRIVIAL_FRACTION = 0.2
 RULE += ' Added after the seeded rounds: Clock gaps from 0.25 s to 40 days, limits from 30 s to 25 h; 1/30 of the histories repeat one call 1001+ times (bound of the event log).'
 RULE += ' Phase-change / senescence handlers optionally call back into the lifecycle that notifies them (keep-alive heartbeat(), get_status(), get_statistics()): the triggering call must still return (lock shim reports re-acquisition).'
+RULE += ' Round 7: a `decoy` (pbt/props/_decoys.py): a second object of the class, differently configured and put through a misleading script (same prompts / names / ids, opposite verdicts and limits), is built in the same process after the object under test.'
 EXHAUSTIVE_NOTE = {"quick": "all op sequences of length 1..3 over 16 ops x 4 configurations (4*(16+256+4096) = 17472 histories), complete",
                    "thorough": "all op sequences of length 1..4 over 16 ops x 4 configurations (279616 histories), complete"}
 
@@ -77,7 +79,7 @@ _rep = st.tuples(st.just("rep"), st.sampled_from([1001, 1010]), st.sampled_from(
 def strategy(tier):
     plain = st.lists(_op, min_size=1, max_size=25)
     long = st.tuples(st.lists(_op, max_size=5), _rep, st.lists(_op, min_size=1, max_size=8)).map(lambda t: t[0] + [t[1]] + t[2])
-    return st.fixed_dictionaries({"cfg": _cfg, "ops": st.integers(0, 29).flatmap(lambda k: long if k == 0 else plain)})
+    return _decoys.with_decoy(st.fixed_dictionaries({"cfg": _cfg, "ops": st.integers(0, 29).flatmap(lambda k: long if k == 0 else plain)}))
 
 
 _ENUM_CFG = [
@@ -143,6 +145,9 @@ def _judge(case, out, clock, tel):
                      error_threshold=cfg["err_thr"], allow_renewal=cfg["renewal"],
                      on_phase_change=on_phase, on_senescence=lambda reason: look_back(), silent=True)
     holder.append(t)
+    if case.get("decoy"):
+        _decoys.lifecycle(case["decoy"], tel)
+        out.label("decoy")
     if handler:
         out.label("re-entrant-handler")
     mx = cfg["max_ops"]
